@@ -746,6 +746,12 @@ func runRec(f []string) string {
 		keys = append(keys, k)
 	}
 	sort.Strings(keys)
+	if path == "cmd" {
+		// the standalone record must name the file given with --file (a temporary path, rendered symbolically)
+		if fnv, ok := rec["client.filename"].(string); ok && fnv == in {
+			rec["client.filename"] = "ARG"
+		}
+	}
 	return "ok " + u.recordLine(rec) + diag(true, 0, 0, mism, detail) +
 		fmt.Sprintf(" sig=%s/%s/%s attrs=%s", sHash, sX5, sPg, strings.Join(keys, ","))
 }
